@@ -18,6 +18,10 @@ import (
 // C13: RSV1 is set and accepted only on the first frame of a message, and the
 // message state is not disturbed by control frames.
 func C13(r *eng.Run) {
+	if r.T.Chance(sim.LEntry, 1, 12) {
+		c13FrameHelpers(r)
+		return
+	}
 	switch r.T.Int(sim.LEntry, 6) {
 	case 0, 1:
 		c13Scripted(r)
@@ -687,4 +691,67 @@ func c13Scripted(r *eng.Run) {
 		}
 	}
 	_ = fmt.Sprint
+}
+
+// c13FrameHelpers: the frame-level way of the package documentation
+// (ws.ReadFrame, then wsflate.IsCompressed / DecompressFrame on every frame,
+// or UnsetBit by hand): the header handed on has RSV1 cleared and the other
+// bits untouched - also for a frame without payload - and RSV1 on a control or
+// continuation frame is refused.
+func c13FrameHelpers(r *eng.Run) {
+	r.SetEntry("frame-helpers")
+	r.Res.Nontrivial = true
+	op := []ws.OpCode{ws.OpText, ws.OpBinary, ws.OpContinuation, ws.OpPing, ws.OpPong, ws.OpClose}[r.T.Int(sim.LOp, 6)]
+	other := byte(r.T.Int(sim.LMisc, 4)) // RSV2/RSV3 of another extension
+	n := []int{0, 0, 1, 20}[r.T.Int(sim.LLen, 4)]
+	var payload []byte
+	if n > 0 {
+		p, err := wsflate.DefaultHelper.Compress(patBytes(r.T.U32(sim.LPaySeed), 0, n))
+		if err != nil {
+			r.Internalf("Compress: %v", err)
+		}
+		payload = p
+	}
+	h := ws.Header{Fin: true, Rsv: 4 | other, OpCode: op, Length: int64(len(payload))}
+	if r.T.Bool(sim.LMask) {
+		h.Masked, h.Mask = true, drawMask(r)
+	}
+	f := ws.Frame{Header: h, Payload: payload}
+	r.Note("C13 frame helpers: op=%d rsv=%d payload=%d", op, h.Rsv, len(payload))
+	first := op == ws.OpText || op == ws.OpBinary
+	if got, err := wsflate.IsCompressed(h); first && (err != nil || !got) || !first && err == nil {
+		r.Failf("rsv1_not_rejected", "IsCompressed(%+v) = %v, %v", h, got, err)
+	}
+	hh, wasSet, err := wsflate.UnsetBit(h)
+	want := h
+	want.Rsv = other
+	if first && (err != nil || hh != want || !wasSet) {
+		r.Failf("rsv_not_cleared", "UnsetBit(%+v) = %+v, %v, %v; expected %+v, true", h, hh, wasSet, err, want)
+	}
+	if !first && err == nil {
+		r.Failf("rsv1_not_rejected", "UnsetBit accepted RSV1 on a frame with opcode %d", op)
+	}
+	var df ws.Frame
+	if r.T.Bool(sim.LCfg) {
+		df, err = wsflate.DecompressFrame(f)
+	} else {
+		var buf bytes.Buffer
+		df, err = wsflate.DecompressFrameBuffer(&buf, f)
+	}
+	if !first {
+		if err == nil {
+			r.Failf("rsv1_not_rejected", "DecompressFrame accepted RSV1 on a frame with opcode %d (%d payload bytes)", op, len(payload))
+		}
+		r.Probe("frame_helper_refuses_rsv1_on_control_or_continuation")
+		return
+	}
+	if err != nil {
+		r.Failf("unexpected_error", "DecompressFrame of a compressed first frame (%d payload bytes): %v", len(payload), err)
+	}
+	if df.Header.Rsv != other || df.Header.OpCode != op || !df.Header.Fin || df.Header.Masked != h.Masked || df.Header.Mask != h.Mask {
+		r.Failf("rsv_not_cleared", "DecompressFrame handed on the header %+v for %+v (%d payload bytes): RSV1 must be cleared, the rest untouched", df.Header, h, len(payload))
+	}
+	if len(payload) == 0 {
+		r.Probe("frame_helper_on_a_compressed_frame_without_payload")
+	}
 }
